@@ -335,7 +335,16 @@ fn diff_class(a: &Obs, b: &Obs) -> &'static str {
 
 pub fn c10_eval(s: &str, acc: &mut Acc) {
     acc.evals += 1;
-    let Ok(base) = observe(s, Backend::Str, Api::Iter) else { return };
+    let base = match observe(s, Backend::Str, Api::Iter) {
+        Ok(b) => b,
+        Err(msg) => {
+            // a panic on every back-end is C01's business; a panic on StrInput alone is a difference
+            if observe(s, Backend::Buf, Api::Iter).is_ok() {
+                acc.violation(viol(format!("panic-only-on backend=str msg={}", classify_panic(&msg)), s, "same observation as BufferedInput", format!("panic: {msg}")));
+            }
+            return;
+        }
+    };
     for b in &C10_BACKENDS[1..] {
         match observe(s, *b, Api::Iter) {
             Err(msg) => acc.violation(viol(format!("panic-only-on backend={} msg={}", b.name(), classify_panic(&msg)), s, "same observation as StrInput", format!("panic: {msg}"))),
